@@ -1,14 +1,17 @@
 (* C10 -- Search API has no hidden state: answers do not depend on call history.
    In the model every query and both searches are functions of (data, parameters) alone; the only
    state the code keeps between calls is (a) the geo index, re-derived on every access,
-   (b) the stored heap, whose snapshot is pure (C14), and (c) after a greedy search, a private copy
-   of the parameters with the unspecified size ranges filled in.  (c) is shown not to matter here;
-   the rest of the property is decided by executed call sequences against fresh objects. *)
+   (b) the stored heap, whose snapshot is pure (C14) and whose retrieval (search_results, translated)
+   reads nothing else, and (c) during a greedy search only, a private copy of the parameters with the
+   unspecified size ranges filled in -- the translator checks on every run that greedy_search is still
+   "copy the parameters, run _greedy_search, put the caller's object back" (fix 4442974), and the theorems
+   below show that even the filled-in copy would not change the admissible sizes.  The rest of the
+   property is decided by executed call sequences against fresh objects. *)
 From Coq Require Import List Arith ZArith Bool Orders.
 From MM Require Import lib.ListSet lib.Values model.Heap model.Elig model.SearchParams model.SearchDefs model.Search
   proofs.HeapProofs proofs.HistoryProofs proofs.OrderIso.
 Import ListNotations.
-From MM Require Import gen.Gen_HeapDict gen.Gen_Exhaustive gen.Gen_Results proofs.ResultsBridge.
+From MM Require Import gen.Gen_HeapDict gen.Gen_Exhaustive gen.Gen_Greedy gen.Gen_Results proofs.ExhaustiveBridge proofs.GreedyBridge proofs.ResultsBridge.
 
 Theorem C10_filled_ranges_do_not_change_treatment_sizes :
   forall (V : Type) (es : list elig) (par : spar V),
@@ -46,3 +49,21 @@ Theorem C10_translated_search_results_reads_only_the_heap :
     gen_search_results ltk geo_id hd = ids_of geo_id (GenHeapDict.gen_get_result ltk des_key hd).
 Proof. exact @gen_search_results_is_image. Qed.
 Print Assumptions C10_translated_search_results_reads_only_the_heap.
+
+(* both searches as regenerated on this run are functions of the classes, the parameters and the kernel oracles
+   alone -- they read no attribute of the object that an earlier call could have left behind (the translator refuses
+   any other read) -- and they compute the model's designs *)
+Theorem C10_translated_exhaustive_search_is_the_model :
+  forall (V K : Type) (O : vops V) (ltk : K -> K -> bool) (A : assignments) (par : spar V)
+         (shareS optB : set -> V) (bud : set -> set -> V) (score0 : set -> set -> K) (replace_inv : K -> V -> K),
+    map (@des_groups K) (dd_get (gen_exhaustive_search O ltk A par shareS optB bud score0 replace_inv) 0%Z)
+    = exhaustive O ltk A par shareS optB bud (stored_key O par bud score0 replace_inv).
+Proof. exact @gen_exhaustive_groups. Qed.
+Theorem C10_translated_greedy_search_is_the_model :
+  forall (V K : Type) (O : vops V) (ltk : K -> K -> bool) (A : assignments) (par : spar V)
+         (shareS : set -> V) (bud : set -> set -> V) (gkey : set -> set -> K) (zero_key : K) (fuel : nat),
+    option_map (fun r => map (@des_groups K) (dd_get r 0%Z)) (gen_greedy_search O ltk A par shareS bud gkey zero_key fuel)
+    = greedy O ltk A par shareS bud gkey zero_key fuel.
+Proof. exact @gen_greedy_groups. Qed.
+Print Assumptions C10_translated_exhaustive_search_is_the_model.
+Print Assumptions C10_translated_greedy_search_is_the_model.
